@@ -135,6 +135,32 @@ class DP:
     v: List[float] = field(default_factory=lambda: [0.0])
 
 
+@dataclass
+class DI:
+    lr: int = 1
+    steps: int = 2
+
+
+class LBase(SimObj):
+    """target of a parse-time link whose value is a whole group: what the link has to hand over (a dict or the
+    group itself) depends on the class chosen at the moment"""
+
+    def __init__(self):
+        self._rec()
+
+
+class TakesDI(LBase):
+    def __init__(self, opts: DI = DI()):
+        self._rec(opts=opts)
+        self.opts = opts
+
+
+class TakesDict(LBase):
+    def __init__(self, opts: Dict[str, int] = {}):
+        self._rec(opts=opts)
+        self.opts = opts
+
+
 class WithData(SimObj):
     """a class whose parameter is an Optional[dataclass]: nested dataclass-typed sub-argument"""
 
